@@ -243,10 +243,10 @@ def oracle(n, t, vrs, res):
     Returns None or a string describing the violation."""
     F = res['funcs']
     supp = set(t_support(n, t))
-    # (0) functions exist exactly for the chosen outputs in the support
-    want = sorted(set(vrs) & supp)
-    if sorted(F) != want:
-        return f'functions for {sorted(F)}, outputs in support {want}'
+    # (0) functions only for chosen outputs (that every output in the
+    # support gets one is forced by (2))
+    if not set(F) <= set(vrs):
+        return f'functions for {sorted(F)}, chosen outputs {sorted(vrs)}'
     # (1) no function depends on an output bit
     for y, (g, care) in F.items():
         for v in vrs:
